@@ -246,6 +246,9 @@ func genC19(t *rapid.T) c19Scen {
 	s.Users = rapid.SliceOfNDistinct(rapid.SampledFrom(c19UserPool), 3, 3, rapid.ID[string]).Draw(t, "users")
 	if s.Hash != auth.Bcrypt {
 		s.Bulk = rapid.SampledFrom([]int{0, 0, 0, 0, 5, 16, 17, 18, 25, 45}).Draw(t, "bulk")
+		if v := rapid.IntRange(0, 199).Draw(t, "bulk_1003"); v == 137 || v == 61 || v == 93 { // (rapid favours small values and the bounds: a value in the middle is rare)
+			s.Bulk = 1003 // more accounts than any page size or batch limit a list API is likely to use
+		}
 	}
 	n := rapid.IntRange(1, 20).Draw(t, "nsteps")
 	for i := 0; i < n; i++ {
@@ -592,6 +595,10 @@ func runC19(s c19Scen, c *ev.Case) *ev.Violation {
 	// before it is attributable to loading.
 	probes := func(phase string) *ev.Violation {
 		for i := range users {
+			// with more than a thousand accounts: the first ten, every 37th and the last thirty
+			if len(users) > 100 && i >= 10 && i%37 != 0 && i < len(users)-30 {
+				continue
+			}
 			if v := doConnect(c19Step{Op: "connect", U: i, V: 4, UF: true, PF: true, UC: "exact", PC: "exact"}, phase); v != nil {
 				return v
 			}
